@@ -344,3 +344,83 @@ def staged_spectra(rng, tier):
                 Ae[:, p] = 0.5 * (Ae[:, p] + Ae[:, p].transpose((0, 2, 1)))
             out.append((name, De, Ae))
     return out
+
+
+def c13_mask_model(rep, ap, rng, tier, pid):
+    """UTPM.triu / UTPM.tril (every offset k that matters for the shape and two beyond, square / wide / tall / one-row / one-column) and
+    UTPM.trace against the Coq model Mask.v, exactly on every coefficient slice"""
+    U = ap.UTPM
+    terms, metas = [], []
+    shapes = [(1, 1), (2, 2), (3, 3), (2, 4), (4, 2), (1, 3), (3, 1), (3, 4)]
+    for it in range(8 if tier == 'quick' else 64):
+        D = 1 + it % 3; P = 1 + (it // 3) % 2
+        n, m = shapes[it % len(shapes)]
+        x = idata(rng, D, P, n, m)
+        x[x == 0] = 7.0          # no accidental zeros: a dropped mask must show
+        try:
+            for k in range(-n - 1, m + 2):
+                kp, kn = (k, 0) if k >= 0 else (0, -k)
+                for upper, name, f in ((True, 'triu', U.triu), (False, 'tril', U.tril)):
+                    form = (it + k) % 3
+                    if form == 0:
+                        y = f(U(x.copy()), k)
+                    elif form == 1:
+                        y = f(U(x.copy()), k=k)
+                    else:
+                        y = getattr(ap, name)(U(x.copy()), k) if k != 0 else getattr(ap, name)(U(x.copy()))
+                    for d in range(D):
+                        for p in range(P):
+                            terms.append('(eqs (tri_mask %s %d %d %d %d %s) %s)' % ('true' if upper else 'false', kp, kn, n, m, flat(x[d, p]), flat(y.data[d, p])))
+                            metas.append(dict(op=name, n=n, m=m, k=k, D=D, d=d, p=p))
+            if n == m:
+                y = U.trace(U(x.copy()))
+                for d in range(D):
+                    for p in range(P):
+                        terms.append('(eqs [:: trace_fwd %d %s] %s)' % (n, flat(x[d, p]), flat([y.data[d, p]])))
+                        metas.append(dict(op='trace', n=n, D=D, d=d, p=p))
+        except Exception as e:
+            rep.violation('reduce:exception', 'triu/tril/trace raises %r' % (e,), dict(kind='reduce-model', shape=[n, m], exc=repr(e)))
+    global IMPORTS
+    imp = IMPORTS
+    IMPORTS = IMPORTS + ' Mask'
+    try:
+        finish(rep, pid, 'k', terms, metas, 'the result differs from the Coq model Mask.v on a coefficient slice')
+    finally:
+        IMPORTS = imp
+
+
+def c03_trace_rule(rep, ap, rng, tier, pid):
+    """UTPM.pb_trace called directly (fresh / accumulating) and through the tracer against pb_trace of Mask.v (proved adjoint of trace)"""
+    U = ap.UTPM
+    terms, metas = [], []
+    for it in range(6 if tier == 'quick' else 60):
+        D = 1 + it % 3; P = 1 + (it // 3) % 2; n = 1 + it % 4
+        x = idata(rng, D, P, n, n)
+        mode = it % 3
+        try:
+            if mode == 2:
+                cg = ap.CGraph(); fx = ap.Function(U(x.copy())); fy = ap.trace(fx)
+                cg.trace_off(); cg.independentFunctionList = [fx]; cg.dependentFunctionList = [fy]
+                yb = idata(rng, D, P)
+                cg.pullback([U(yb.copy())])
+                xb = numpy.asarray(fx.xbar.data)
+            else:
+                y = U.trace(U(x.copy()))
+                yb = idata(rng, D, P)
+                x0 = idata(rng, D, P, n, n) if mode == 1 else numpy.zeros_like(x)
+                r = U.pb_trace(U(yb.copy()), U(x.copy()), y, out=(U(x0.copy()),) if mode == 1 else None)
+                r = r[0] if isinstance(r, tuple) else r
+                xb = numpy.asarray(r.data) - x0
+            for d in range(D):
+                for p in range(P):
+                    terms.append('(eqs (pb_trace %d %s) %s)' % (n, lib.qlit(F(int(yb[d, p]))), flat(xb[d, p])))
+                    metas.append(dict(op='pb_trace', n=n, D=D, d=d, p=p, mode=mode))
+        except Exception as e:
+            rep.violation('reduce:exception', 'the reverse rule of trace raises %s' % repr(e)[:300], dict(kind='reduce-model', n=n, mode=mode, exc=repr(e)[:1500]))
+    global IMPORTS
+    imp = IMPORTS
+    IMPORTS = IMPORTS + ' Mask'
+    try:
+        finish(rep, pid, 'k', terms, metas, 'the adjoint the implementation returns differs from the proved rule pb_trace of Mask.v')
+    finally:
+        IMPORTS = imp
